@@ -130,7 +130,7 @@ type sim struct {
 	windowRounds int
 	everSeen     map[uint64]bool // ids the user has ever written
 	unset        map[uint64]bool // ids whose current version was written with the zero status for the first reconciler
-	roundEnds    []int64         // event sequence numbers of round ends (metrics callback, under mu)
+	roundEnds    []time.Duration // virtual times of round ends (metrics callback, under mu)
 	wmZero       int
 	nextPay      uint64
 	seq          int64 // event sequence (under mu)
@@ -659,7 +659,8 @@ func (m *metrics) ReconciliationDuration(moduleID cell.FullModuleID, name, opera
 func (m *metrics) ReconciliationErrors(cell.FullModuleID, string, int, int) {
 	s := m.s
 	s.mu.Lock()
-	s.roundEnds = append(s.roundEnds, s.nextSeq())
+	s.nextSeq()
+	s.roundEnds = append(s.roundEnds, s.now())
 	s.mu.Unlock()
 }
 func (m *metrics) PruneError(cell.FullModuleID, string, error)            {}
@@ -903,27 +904,34 @@ func (s *sim) startWaiter(rev uint64) {
 }
 
 // checkZeroWatermark: a low watermark of zero says that no failed object awaits a retry. The value WaitUntilReconciled hands out
-// was published at the end of the last or (if the call returned between a round's end and its publication) the second to last
-// round; an object whose latest attempt failed before the end of the round before those two, and which nobody has touched since,
-// was in the retry queue at the end of both, so zero is wrong. (Only judged without further real reconcilers and refreshing, whose
-// writes are not in the event log.)
+// was published by a round that ended at or before the virtual time T of the return. The virtual clock only moves when every
+// goroutine of the bubble is blocked, so a round that ended at a virtual time strictly before T had published its value by then,
+// and T itself is read reliably by the waiter (it cannot be descheduled across a clock step). Hence: if some round ended strictly
+// between the end of a failed attempt and T, the value handed out comes from that round or a later one, and an object that failed
+// before it and has been neither retried nor touched since was in the retry queue at its end - zero is wrong. (Rounds of the same
+// virtual instant cannot be ordered against the return and are not used. Only judged without further real reconcilers and
+// refreshing, whose writes are not in the event log.)
 func (s *sim) checkZeroWatermark(wm uint64) {
 	if wm != 0 || s.cfg.Extra > 0 || s.cfg.Refresh {
 		return
 	}
+	T := s.now()
 	s.mu.Lock()
 	defer s.mu.Unlock()
 	s.wmZero++
-	if len(s.roundEnds) < 3 {
-		return
-	}
-	limit := s.roundEnds[len(s.roundEnds)-3]
 	last := map[uint64]Attempt{}
 	for _, a := range s.attempts {
 		last[a.ID] = a
 	}
 	for id, a := range last {
-		if a.OK || a.Seq > limit {
+		if a.OK {
+			continue
+		}
+		between := false
+		for _, re := range s.roundEnds {
+			between = between || re > a.End && re < T
+		}
+		if !between {
 			continue
 		}
 		cur, live := s.model[id]
@@ -932,16 +940,16 @@ func (s *sim) checkZeroWatermark(wm uint64) {
 		}
 		touched := false
 		for _, w := range s.writes {
-			touched = touched || w.ID == id && w.Seq > a.Seq
+			touched = touched || w.ID == id && (w.Seq > a.Seq || w.Rev > a.Rev)
 		}
 		for _, w := range s.touches {
-			touched = touched || w.ID == id && w.Seq > a.Seq
+			touched = touched || w.ID == id && (w.Seq > a.Seq || w.Rev > a.Rev)
 		}
 		if touched {
 			continue
 		}
 		s.mu.Unlock()
-		s.violate("pacing", "low-watermark-zero", "WaitUntilReconciled reported low watermark 0 although the %s of id=%d (revision %d) failed %d rounds ago and has neither been retried nor changed since", a.Op, id, a.Rev, 3)
+		s.violate("pacing", "low-watermark-zero", "WaitUntilReconciled returned at %.3fms with low watermark 0 although the %s of id=%d (revision %d) failed at %.3fms, a later round ended before the return, and the object has neither been retried nor changed since", float64(T)/1e6, a.Op, id, a.Rev, float64(a.End)/1e6)
 		s.mu.Lock()
 		return
 	}
